@@ -490,6 +490,21 @@ def gen_one_pass_residue(rng):
     return {"m%d" % i: h for i, h in enumerate(holders)}
 
 
+def gen_object_members(rng):
+    """samples whose field is a heterogeneous list (or a mapping-by-position) holding objects with the SAME keys but
+    different value types in different samples, next to equal scalar members: the object members must be merged, whatever
+    sample comes first"""
+    k1, k2 = rng.sample(WORDS, k=2)
+    vals = [(7, 1.5), ("E-7", None), (True, "x"), (2.5, [1])]
+    rng.shuffle(vals)
+    samples = []
+    for a, b in vals[:rng.randint(2, 3)]:
+        samples.append({"items": [10, {k1: a, k2: b}], "n": 1})
+    if rng.random() < 0.4:
+        samples.append({"items": [{k1: None, k2: 0}], "n": 2})
+    return samples
+
+
 def gen_shared_samples(rng):
     return [gen_shared_shape(rng) for _ in range(rng.randint(1, 2))]
 
